@@ -212,6 +212,7 @@ func runC09(c *Check) {
 	}, true, c09GuardExceptions, c09ExceptionHooks)
 	c.Floor("C09-R2", 120)
 	c.discardedErrDeref()
+	c.treeConditionAgreement()
 	c.lockRelease()
 	c.divisionGuards()
 	c.errorsContinue()
